@@ -315,6 +315,14 @@ impl<T: AsRef<[u8]> + AsMut<[u8]>> Packet<T> {
         NetworkEndian::write_u16(&mut data[field::CHECKSUM], value)
     }
 
+    /// Clear the four unused octets that follow the checksum
+    /// (for destination unreachable and time exceeded packets).
+    #[inline]
+    pub fn clear_unused(&mut self) {
+        let data = self.buffer.as_mut();
+        data[field::UNUSED].fill(0)
+    }
+
     /// Set the identifier field (for echo request and reply packets).
     ///
     /// # Panics
@@ -523,6 +531,7 @@ impl<'a> Repr<'a> {
             } => {
                 packet.set_msg_type(Message::DstUnreachable);
                 packet.set_msg_code(reason.into());
+                packet.clear_unused();
 
                 let mut ip_packet = Ipv4Packet::new_unchecked(packet.data_mut());
                 header.emit(&mut ip_packet, checksum_caps);
@@ -537,6 +546,7 @@ impl<'a> Repr<'a> {
             } => {
                 packet.set_msg_type(Message::TimeExceeded);
                 packet.set_msg_code(reason.into());
+                packet.clear_unused();
 
                 let mut ip_packet = Ipv4Packet::new_unchecked(packet.data_mut());
                 header.emit(&mut ip_packet, checksum_caps);
